@@ -197,9 +197,9 @@ def evaluate(case):
     c.nontrivial = bool((not sync) and any(su.e[j] > 0.01 and ms.n_freq[j] >= 5 for j in range(k)))
 
     kw = tc.single_kwargs(su, b, derivatives=False)
+    retries0 = tc.TRANSIENT_RETRIES['count']
     try:
-        with repo_call('quick_tidal_dissipation'):
-            res = quick_tidal_dissipation(**kw)
+        res = tc.call_repo('quick_tidal_dissipation', quick_tidal_dissipation, **kw)
     except RepoRaised as e:
         cls = tc.known_exception_class(b, ms, e.exc)
         c.label('exception:' + (cls or 'other'))
@@ -209,6 +209,8 @@ def evaluate(case):
                % (b.rheology, su.e.tolist(), ratio.tolist() if not b.sync else 'sync', su.l_max, su.trunc, su.as_array,
                   type(e.exc).__name__, e.exc))
         return c.result()
+    if tc.TRANSIENT_RETRIES['count'] != retries0:
+        c.label('numba_transient_retry')
     M = b.host_mass
     H = _full(res['tidal_heating'], k)
     dM = _full(res['dUdM'], k)
